@@ -1,6 +1,6 @@
 SPECIFICATION GSpec
 CONSTANTS
-  MaxId = 5
+  MaxId = 4
   NDocs = 1
   NNames = 1
   NStrs = 1
